@@ -30,6 +30,8 @@ def g_cmd(c, table):
         return "QIter %s %s %s %s" % (g_src(c[1]), g_path(c[2], table), g_bool(c[3]), g_bool(c[4]))
     if k == 'next':
         return "QNext %s" % g_nat(c[1])
+    if k == 'drain':
+        return "QDrain %s %s %s" % (g_nat(c[1]), g_nat(c[2]), g_nat(c[3]))
     if k == 'get_match':
         return "QGetMatch %s %s %s %s" % (g_src(c[1]), g_path(c[2], table), g_bool(c[3]), g_bool(c[4]))
     if k == 'get':
@@ -38,6 +40,8 @@ def g_cmd(c, table):
         return "QEq %s %s" % (g_nat(c[1]), g_nat(c[2]))
     if k == 'roundtrip':
         return "QRoundtrip %s" % g_nat(c[1])
+    if k == 'snap':
+        return "QSnap"
     if k == 'describe':
         return "QDescribe %s" % g_nat(c[1])
     raise ValueError(k)
